@@ -3798,10 +3798,18 @@ fn generate_constraints_expr_funcap_helper(
     expr_node: AstNode,
     node_ty: TypeVar,
 ) {
-    if let Some(PotentialType::Function(_, func_ty_args, _)) = ty_func.single() {
-        args.iter().zip(func_ty_args).for_each(|(arg, expected)| {
-            generate_constraints_expr(ctx, polyvar_scope, Mode::ana(expected), arg);
-        });
+    // every argument is checked: against the parameter's type if the function's type is already
+    // known, and on its own otherwise (e.g. when calling a parameter without annotation)
+    let expected_args = match ty_func.single() {
+        Some(PotentialType::Function(_, func_ty_args, _)) => func_ty_args,
+        _ => vec![],
+    };
+    for (n, arg) in args.iter().enumerate() {
+        let mode = match expected_args.get(n) {
+            Some(expected) => Mode::ana(expected),
+            None => Mode::Syn,
+        };
+        generate_constraints_expr(ctx, polyvar_scope, mode, arg);
     }
 
     // arguments
